@@ -145,13 +145,19 @@ impl Shader for SolidShader {
 }
 
 fn transform_to_fixed(transform: &Transform) -> MatrixFixedPoint {
+    // sw_composite::float_to_fixed adds 0.5 and truncates toward zero, which rounds negative values up by as
+    // much as 1.5 units. The entries of the matrix are multiplied by pixel coordinates, so that bias grows into
+    // a visible drift a few hundred pixels from the origin: round to nearest instead
+    fn to_fixed(x: f32) -> i32 {
+        (x * 65536.).round() as i32
+    }
     MatrixFixedPoint {
-        xx: float_to_fixed(transform.m11),
-        xy: float_to_fixed(transform.m21),
-        yx: float_to_fixed(transform.m12),
-        yy: float_to_fixed(transform.m22),
-        x0: float_to_fixed(transform.m31),
-        y0: float_to_fixed(transform.m32),
+        xx: to_fixed(transform.m11),
+        xy: to_fixed(transform.m21),
+        yx: to_fixed(transform.m12),
+        yy: to_fixed(transform.m22),
+        x0: to_fixed(transform.m31),
+        y0: to_fixed(transform.m32),
     }
 }
 
